@@ -24,7 +24,13 @@ import (
 )
 
 func init() {
-	core.Register(core.Check{ID: "C15", Level: "exploration", Run: func(c *core.Ctx) { runC15(c); historyPass(c, "C15"); reentrancyPass(c, "C15"); arch386Pass(c, "C15") }})
+	core.Register(core.Check{ID: "C15", Level: "exploration", Run: func(c *core.Ctx) {
+		waitArch := background(func() { arch386Pass(c, "C15") })
+		runC15(c)
+		historyPass(c, "C15")
+		reentrancyPass(c, "C15")
+		waitArch()
+	}})
 }
 
 type c15leaf struct {
